@@ -63,6 +63,7 @@ def gen_iter(rng, i, quick):
     if rng.random() < 0.25:
         kinds.append(rng.choice([2, 2, 3, 4, 5]))
     c["enumerate"] = kinds
+    c["enumerate_fin"] = [[0]] if rng.random() < 0.85 else [[0], [1]]
     if rng.random() < 0.04:
         c["ctor"] = "init"
         c[rng.choice(["size_fault", "data_fault"])] = True
@@ -72,6 +73,7 @@ def gen_iter(rng, i, quick):
 def iter_case(**kw):
     c = base.base_case(**kw)
     c.setdefault("enumerate", [1, 0, 2])
+    c.setdefault("enumerate_fin", [[0], [1], [0, 1]])
     return norm(c)
 
 
@@ -122,7 +124,8 @@ DRAW_PADS = [["A", 0, -2, 1, 1], ["E", 0, 0, 0, 0], ["E", 1, 1, 1, 1], ["A", 0, 
 def oneshot_case(mode, **kw):
     c = {"mode": mode, "n": 3, "total": 4, "loops": 2, "cache": True, "size": [2, 1], "dur": 7, "args": "none",
          "pad": ["A", 0, -2, 1, 1], "frame": 0, "stamp": False, "faults": {}, "ffaults": {}, "animate": True,
-         "check_size": True, "allow_scroll": False, "size_fault": False, "enumerate": [1, 0, 2]}
+         "check_size": True, "allow_scroll": False, "size_fault": False, "enumerate": [1, 0, 2],
+         "enumerate_fin": [[0], [1]]}
     c.update(kw)
     return c
 
@@ -150,6 +153,7 @@ def gen_oneshot(rng, i):
     if rng.random() < 0.25:
         kinds.append(rng.choice([2, 3, 4, 5]))
     c["enumerate"] = kinds
+    c["enumerate_fin"] = [[0]]
     return c
 
 
@@ -217,7 +221,9 @@ def fcase_t(c, r):
     return (f"{{| f_t := {t}; f_kind := {CTOR_KIND[ctor_of(c)]}%nat; f_size_fault := {b(c.get('size_fault'))}; "
             f"f_data_fault := {b(c.get('data_fault'))}; f_fin_ops := {nats(r['fin_ops'])}; "
             f"f_fz_ops := {core.coq_list(r['fz_ops'], b)}; f_closed_ops := {core.coq_list(r['closed_ops'], b)}; "
-            f"f_others := {nats(r['others'])}; f_fin_caller := {r['fin_caller']}%nat |}}")
+            f"f_others := {nats(r['others'])}; f_fin_caller := {r['fin_caller']}%nat; "
+            f"f_fin_faults := {nats(c.get('fin_faults', []))}; f_gc_raised := {r['gc_raised']}%nat; "
+            f"f_caller_raised := {b(r['caller_raised'])} |}}")
 
 
 def ocase_t(c, r):
@@ -226,7 +232,8 @@ def ocase_t(c, r):
     return (f"{{| o_t := {t}; o_mode := {MODE[c['mode']]}%nat; o_animate := {b(c.get('animate', True))}; "
             f"o_check_size := {b(c.get('check_size', True))}; o_allow_scroll := {b(c.get('allow_scroll', False))}; "
             f"o_size_fault := {b(c.get('size_fault'))}; o_fin_ret := {nats(r['fin_ret'])}; "
-            f"o_fin_gc := {nats(r['fin_gc'])}; o_orphans := {nats(r['orphans'])} |}}")
+            f"o_fin_gc := {nats(r['fin_gc'])}; o_orphans := {nats(r['orphans'])}; "
+            f"o_fin_faults := {nats(c.get('fin_faults', []))}; o_unraisable := {r['unraisable']}%nat |}}")
 
 
 def is_iter(c):
@@ -272,16 +279,19 @@ def evaluate(cases, tag="c10"):
 def describe(c):
     if is_iter(c):
         extra = "".join(f" {k}" for k in ("size_fault", "data_fault") if c.get(k))
+        if c.get("fin_faults"):
+            extra += f" finalizer raises at its invocation(s) {c['fin_faults']}"
         return f"iterator via {ctor_of(c)}{extra}: " + base.describe(c)
     n = "INDEFINITE" if c["n"] is None else c["n"]
     return (f"{c['mode']}() frames={n} stream={c.get('total')} tell={c.get('frame', 0)} size={c['size']} "
             f"pad={c['pad']} args={c['args']} dur={c['dur']} loops={c['loops']} cache={c['cache']} "
             f"animate={c.get('animate')} check_size={c.get('check_size')} allow_scroll={c.get('allow_scroll')} "
-            f"size_fault={c.get('size_fault', False)} faults={c.get('faults', {})} frame_faults={c.get('ffaults', {})}")
+            f"size_fault={c.get('size_fault', False)} faults={c.get('faults', {})} frame_faults={c.get('ffaults', {})}"
+            f" finalizer_raises_at={c.get('fin_faults', [])}")
 
 
 SIG_KEYS = ("mode", "ctor", "n", "total", "loops", "cache", "size", "dur", "args", "pad", "frame", "faults", "ffaults",
-            "ops", "size_fault", "data_fault", "animate", "check_size", "allow_scroll")
+            "ops", "size_fault", "data_fault", "animate", "check_size", "allow_scroll", "fin_faults")
 
 
 def signature(c):
@@ -291,11 +301,16 @@ def signature(c):
         d["ctor"] = ctor_of(c)
     for k in ("size_fault", "data_fault"):
         d[k] = bool(d[k])
+    d["fin_faults"] = list(c.get("fin_faults") or [])
     return core.sig(d)
 
 
+def plain(c):
+    return {k: v for k, v in c.items() if k not in ("enumerate", "enumerate_fin")}
+
+
 def fails_spec(cands, tag="c10s"):
-    cands = [{k: v for k, v in c.items() if k != "enumerate"} for c in cands]
+    cands = [plain(c) for c in cands]
     variants, codes, errors, _ = evaluate(cands, tag=tag)
     return [code >= 2 and not errors for code in codes]
 
@@ -319,6 +334,12 @@ def simplified(c):
         k = max([int(x) for x in flt] + [0])
         s = base.base_case(n=2, loops=-1, faults=flt, ops=[N] * (k + 1) + ([["seek", 0, 0, True]] if flt else []))
         s["ctor"] = ctor_of(c)
+        s.pop("enumerate", None)
+        s.pop("enumerate_fin", None)
+        if c.get("fin_faults"):
+            s["fin_faults"] = list(c["fin_faults"])
+            if not flt:  # the finalizer raises when the iterator is closed / exhausted / collected
+                s["ops"] = [N, ["close"], N, ["seek", 0, 0, True], ["close"]]
         for f in ("size_fault", "data_fault"):
             if c.get(f):
                 s[f] = True
@@ -326,6 +347,9 @@ def simplified(c):
     s = oneshot_case(c["mode"], faults=flt, n=c["n"] if c["n"] in (1, None) else 3,
                      animate=c.get("animate", True), size_fault=c.get("size_fault", False))
     s.pop("enumerate", None)
+    s.pop("enumerate_fin", None)
+    if c.get("fin_faults"):
+        s["fin_faults"] = list(c["fin_faults"])
     if c["mode"] == "draw" and (c.get("faults") or {}) == {} and not c.get("size_fault"):
         s["size"], s["pad"], s["check_size"], s["allow_scroll"] = c["size"], c["pad"], c["check_size"], c["allow_scroll"]
     return s
@@ -336,12 +360,15 @@ def what_of(c, r, code):
         seen = {"finalize calls per op": r.get("fin_ops"), "finalized per op": r.get("fz_ops"),
                 "closed per op": r.get("closed_ops"), "after del+gc": [r.get("fin"), r.get("finalized_end")],
                 "after the caller's own finalize()": r.get("fin_caller"),
+                "finalizer exceptions unraisable at gc / out of the caller's finalize()":
+                    [r.get("gc_raised"), r.get("caller_raised")],
                 "other data objects": r.get("others"), "ctor": r.get("ctor"),
                 "finalized flag seen by _render_": [x[6] for x in r.get("log", [])],
                 "outcomes": [x[0][:3] for x in r.get("ops", [])]}
     else:
         seen = {"outcome": r.get("outcome"), "finalize calls at return": r.get("fin_ret"),
                 "after gc": r.get("fin_gc"), "abandoned data": r.get("orphans"),
+                "finalizer exceptions unraisable": r.get("unraisable"),
                 "finalized flag seen by _render_": [x[6] for x in r.get("log", [])]}
     return ("render data not finalized exactly once / used after finalization / iterator open after its end: "
             + describe(c) + " -> observed " + json.dumps(seen)[:700])
@@ -353,8 +380,8 @@ def run(ctx):
         cases = [ctx.replay["replay"]["case"]]
         n_corpus = 0
     else:
-        n_iter = 200 if ctx.quick else 2600
-        n_one = 120 if ctx.quick else 1500
+        n_iter = 150 if ctx.quick else 2000
+        n_one = 90 if ctx.quick else 1200
         corpus = [copy.deepcopy(c) for c in ITER_CORPUS + ONESHOT_CORPUS]
         n_corpus = len(corpus)
         cases = corpus + [gen_iter(rng, i, ctx.quick) for i in range(n_iter)] \
@@ -382,7 +409,7 @@ def run(ctx):
         for m in minimal:
             uniq.setdefault(signature(m), m)
         keys = list(uniq)
-        v2, c2, _, o2 = evaluate([{k: v for k, v in uniq[s].items() if k != "enumerate"} for s in keys], "c10r")
+        v2, c2, _, o2 = evaluate([plain(uniq[s]) for s in keys], "c10r")
         for s, c, code, r in zip(keys, v2, c2, o2):
             failures.append({"signature": s, "what": what_of(c, r, code),
                              "replay": {"case": c, "observed": r, "code": code}})
@@ -394,7 +421,7 @@ def run(ctx):
          "fault_variants": 0, "ops_on_ended_iterator": 0, "render_calls_observed": 0,
          "faults_actually_hit": 0, "ctor_rejected": 0, "data_left_to_gc": 0, "caller_owned_left_unfinalized": 0,
          "abandoned_half_built_data_collected": 0, "draw_animated": 0, "draw_still": 0,
-         "draw_size_validation_failures": 0}
+         "draw_size_validation_failures": 0, "finalizer_fault_schedule": {}, "finalizer_exception_seen": {}}
 
     def inc(k, v):
         v = str(v)
@@ -407,7 +434,10 @@ def run(ctx):
         for k, v in flt.items():
             inc("fault_kind", KINDS.get(v, v))
             inc("fault_position", k if int(k) < 8 else "8+")
-        h["fault_variants" if flt else "histories_unfaulted"] += 1
+        ff = c.get("fin_faults") or []
+        if ff:
+            inc("finalizer_fault_schedule", ff)
+        h["fault_variants" if flt or ff else "histories_unfaulted"] += 1
         h["render_calls_observed"] += len(r.get("log", []))
         if is_iter(c):
             inc("family", "iterator")
@@ -432,6 +462,13 @@ def run(ctx):
                 ended = "garbage collection only"
                 h["data_left_to_gc"] += 1
             inc("iterator_ended_by", ended)
+            if ff:
+                where = next((o[0] for o, x in zip(c["ops"], r["ops"]) if x[0][:3] == ["E", "render", 90]), None)
+                where = where or ("garbage collection (unraisable)" if r.get("gc_raised") else
+                                  "caller's own finalize()" if r.get("caller_raised") else "never invoked")
+                inc("finalizer_exception_seen", "iterator: " + where)
+                if where in ("next", "close", "drop"):
+                    nontrivial.add(signature(c))
             if ctor_of(c) == "frd_keep" and r["fin"] == 0:
                 h["caller_owned_left_unfinalized"] += 1
             if flt and ended.startswith("error") and len(c["ops"]) >= 4:
@@ -442,12 +479,16 @@ def run(ctx):
             out = r["outcome"]
             inc("oneshot_outcome", "returned" if out[0] == "K" else str(out[1]))
             h["abandoned_half_built_data_collected"] += len(r.get("orphans", []))
+            if ff:
+                inc("finalizer_exception_seen", "one-shot: " + ("propagated" if out[:3] == ["E", "render", 90] else
+                                                               "unraisable in __del__" if r.get("unraisable") else
+                                                               "never invoked"))
             if c["mode"] == "draw":
                 anim = c.get("animate", True) and (c["n"] is None or c["n"] > 1)
                 h["draw_animated" if anim else "draw_still"] += 1
                 if out[0] == "E" and out[1] == "sizerange":
                     h["draw_size_validation_failures"] += 1
-            if out[0] == "E" and out[1] in ("render", "stopdef"):
+            if out[0] == "E" and out[1] in ("render", "stopdef") and (out[2] != 90 or flt):
                 h["faults_actually_hit"] += 1
                 nontrivial.add(signature(c))
 
